@@ -6,7 +6,10 @@ import (
 	"strings"
 
 	"github.com/mmcloughlin/avo/build"
+	"github.com/mmcloughlin/avo/ir"
+	"github.com/mmcloughlin/avo/pass"
 	"github.com/mmcloughlin/avo/reg"
+	"github.com/mmcloughlin/avo/x86"
 )
 
 // collectionFile: sequences of draws from the real reg.Collection (directly and through build.Context),
@@ -196,4 +199,37 @@ func maskSetFile(c *Ctx) {
 	o.Stage("MaskSet.v")
 	o.ExpectEmpty("MaskSet.v", "R_maskset_violation", "violation", "a set operation on register byte masks differs from the bytewise set algebra (e.g. a live wide view minus a written narrow view must keep the remaining bytes)")
 	o.Plan.Stats["maskset_operations"] = n
+}
+
+// aliasPairsKeptApart: two views of one register that have the same width but different bytes (AL/AH, ...,
+// the low and high byte of a virtual register) are different registers to every consumer of the model; the
+// self-move clean-up, which deletes `MOV r, r`, must keep a move between them.
+func aliasPairsKeptApart(c *Ctx) {
+	o := c.Out
+	var pairs [][2]reg.Register
+	ps := reg.GeneralPurpose.Registers()
+	for _, a := range ps {
+		for _, b := range ps {
+			if a.ID() == b.ID() && a.Size() == b.Size() && a.Mask() != b.Mask() {
+				pairs = append(pairs, [2]reg.Register{a, b})
+			}
+		}
+	}
+	coll := reg.NewCollection()
+	v := coll.GP64()
+	pairs = append(pairs, [2]reg.Register{v.As8L(), v.As8H()}, [2]reg.Register{v.As8H(), v.As8L()})
+	for _, pr := range pairs {
+		mv, err := x86.MOVB(pr[0], pr[1])
+		if err != nil {
+			continue
+		}
+		fn := ir.NewFunction("f")
+		fn.AddInstruction(mv)
+		fn.AddInstruction(&ir.Instruction{Opcode: "RET", IsTerminal: true})
+		idx := o.AddCase(Case{Key: "alias:self-move", Desc: fmt.Sprintf("MOVB %s, %s through PruneSelfMoves", pr[0].Asm(), pr[1].Asm()), Input: map[string]any{"src": pr[0].Asm(), "dst": pr[1].Asm()}, Nontrivial: true})
+		if err := pass.PruneSelfMoves(fn); err != nil || len(fn.Instructions()) != 2 {
+			o.Plan.GoViolations = append(o.Plan.GoViolations, GoViolation{Key: "alias:views-conflated", Desc: fmt.Sprintf("case %d: `MOVB %s, %s` moves one byte of the register to another byte of it, but the self-move clean-up treats the two views as the same register and deletes it (%v)", idx, pr[0].Asm(), pr[1].Asm(), err), Replay: map[string]any{"src": pr[0].Asm(), "dst": pr[1].Asm()}})
+		}
+	}
+	o.Plan.Stats["alias_pairs"] = len(pairs)
 }
